@@ -98,6 +98,7 @@ type CheckConfig struct {
 	MaxSec     int
 	NoReplay   bool
 	SkipSelf   bool
+	Tag        string // scratch runs (seeded-defect evaluation): separate output and evidence locations
 	SolverName string
 }
 
@@ -167,7 +168,7 @@ func NativeReplay(cfg *CheckConfig, cexPaths []string, race bool, timeoutSec int
 	if err != nil {
 		return res, "", err
 	}
-	outDir := filepath.Join(cfg.VerifDir, "out", "overlay")
+	outDir := filepath.Join(cfg.VerifDir, "out", "overlay"+cfg.Tag)
 	os.MkdirAll(outDir, 0o755)
 	repl := map[string]string{}
 	for virt, data := range ov {
@@ -301,6 +302,9 @@ func RunCheck(cfg *CheckConfig) *CheckOutcome {
 		return out
 	}
 	evPath := filepath.Join(cfg.VerifDir, "evidence", cfg.Property+".json")
+	if cfg.Tag != "" {
+		evPath = filepath.Join(cfg.VerifDir, "out", "scratch-"+cfg.Tag, "evidence-"+cfg.Property+".json")
+	}
 	os.MkdirAll(filepath.Dir(evPath), 0o755)
 	ev := map[string]interface{}{
 		"property_id": cfg.Property, "tier": cfg.Tier, "seed": cfg.Seed, "level": "model_checking",
@@ -471,12 +475,16 @@ func RunCheck(cfg *CheckConfig) *CheckOutcome {
 
 	// counterexamples -> files -> native replay
 	cexDir := filepath.Join(cfg.VerifDir, "out", cfg.Property)
+	if cfg.Tag != "" {
+		cexDir = filepath.Join(cfg.VerifDir, "out", "scratch-"+cfg.Tag, cfg.Property)
+	}
 	os.RemoveAll(cexDir)
 	os.MkdirAll(cexDir, 0o755)
 	type pending struct {
 		f     Finding
 		path  string
 		known string
+		key   string
 	}
 	var pend []pending
 	perKey := map[string]int{}
@@ -495,14 +503,18 @@ func RunCheck(cfg *CheckConfig) *CheckOutcome {
 			}
 		}
 		key += "|" + knownID
-		if perKey[key] >= 1 || len(pend) >= 60 {
+		lim := 1
+		if f.Kind == "sharedwrite" || sharedWriteMsg(f.Msg) != "" {
+			lim = 4
+		}
+		if perKey[key] >= lim || len(pend) >= 80 {
 			continue
 		}
 		perKey[key]++
 		p := filepath.Join(cexDir, fmt.Sprintf("%s-%d.json", f.Harness, len(pend)))
 		data, _ := json.MarshalIndent(map[string]interface{}{"property": cfg.Property, "harness": f.Harness, "kind": f.Kind, "assertion": f.Msg, "where": f.Where, "stack": f.Stack, "draws": f.Draws, "decisions": f.Trace, "notes": f.Notes, "known": knownID}, "", " ")
 		os.WriteFile(p, data, 0o644)
-		pend = append(pend, pending{f, p, knownID})
+		pend = append(pend, pending{f, p, knownID, key})
 	}
 	replays := 0
 	discrepancies := []string{}
@@ -521,6 +533,9 @@ func RunCheck(cfg *CheckConfig) *CheckOutcome {
 		if err != nil {
 			fmt.Println("replay error:", err)
 		}
+		keyConfirmed := map[string]bool{}
+		var unconfirmed []string
+		unconfKey := map[string]string{}
 		for _, p := range pend {
 			r, ok := results[p.path]
 			replays++
@@ -552,6 +567,7 @@ func RunCheck(cfg *CheckConfig) *CheckOutcome {
 				why = "no replay result"
 			}
 			if confirmed {
+				keyConfirmed[p.key] = true
 				if p.known != "" {
 					confirmedKnown[p.known] = true
 					continue
@@ -561,9 +577,16 @@ func RunCheck(cfg *CheckConfig) *CheckOutcome {
 				fmt.Printf("%s   # %s: %s %s\n", line, p.f.Kind, p.f.Msg, why)
 			} else {
 				d := fmt.Sprintf("%s: %s (%s) did not reproduce natively: failed=%v panic=%q diverged=%q %.1fs", filepath.Base(p.path), p.f.Msg, p.f.Kind, r.Failed, r.Panic, r.Diverged, r.Seconds)
-				discrepancies = append(discrepancies, d)
-				fmt.Println("ENCODING-DISCREPANCY:", d)
+				unconfirmed = append(unconfirmed, d)
+				unconfKey[d] = p.key
 			}
+		}
+		for _, d := range unconfirmed {
+			if keyConfirmed[unconfKey[d]] {
+				continue // another counterexample of the same event reproduced
+			}
+			discrepancies = append(discrepancies, d)
+			fmt.Println("ENCODING-DISCREPANCY:", d)
 		}
 	}
 	for id, k := range openKnown {
